@@ -821,6 +821,30 @@ def dup_evict(m1: int, m2: int, m3: int, m4: int, m5: int, maxlen: int) -> str:
         return orc.result()
 
 
+def dup_evict_outbound(m1: int, m2: int, m3: int, m4: int, b1: bool, b2: bool, b3: bool, b4: bool, maxlen: int) -> str:
+    """
+    Four Hellos (versions 1..4, one EPR, message ids from a pool of 3) on a node that remembers `maxlen` ids; a Hello may lack
+    XAddrs (b*), which makes the node SEND a Resolve whose own id enters the same memory: a received id must still be acted on
+    iff it is not among the last `maxlen` ids the node saw or sent.
+    pre: 0 <= m1 < 3
+    pre: 0 <= m2 < 3
+    pre: 0 <= m3 < 3
+    pre: 0 <= m4 < 3
+    post: __return__ == 'ok'
+    """
+    ms = [pick(m, MIDS) for m in (m1, m2, m3, m4)]
+    bs = [bool(b1), bool(b2), bool(b3), bool(b4)]
+    with untraced():
+        orc = Oracle()
+        try:
+            node, model = Node(maxlen), TableModel(maxlen)
+            for n, mid in enumerate(ms):
+                _step(node, model, orc, 'hello', 'urn:e1', n + 1, mid, bs[n], f'msg{n + 1}')
+        except Exception as ex:  # noqa: BLE001
+            return exc_result(orc, ex, 'dup-evict-outbound')
+        return orc.result()
+
+
 GARBAGE = (b'', b'<', b'<a/>', b'\xff\xfe', b'<s:Envelope xmlns:s="http://www.w3.org/2003/05/soap-envelope"><s:Body/></s:Envelope>',
            b'not xml http://schemas.xmlsoap.org/ws/2005/04/discovery')
 
